@@ -782,6 +782,13 @@ func sqlLike(s, pat *StrVal) *Term {
 // ---------- statement execution ----------
 
 func (p *Path) sqlFault(what string) Value {
+	switch what {
+	case "insert", "update", "exec", "deleteall":
+		p.recordPseudo("IndexStore.rows", true)
+	case "open":
+	default:
+		p.recordPseudo("IndexStore.rows", false)
+	}
 	mp := p.E.SSA[ModelPkg]
 	if mp == nil {
 		return nil
